@@ -10,6 +10,7 @@ in lean/CyVerif/Props/C39.lean.
 import os
 
 import cybuild
+import lib
 
 PROBE = r'''
 # cython: language_level=3
@@ -176,7 +177,10 @@ def run_strings(ctx):
             if name == "default":
                 ctx.tie_break("string-table probe build", so.stage + ": " + so.log[-400:], {"cell": name})
             continue
-        o = cybuild.run_cases(ctx, so, [("digests", "()")], timeout_per_case=60)[0]
+        try:
+            o = cybuild.run_cases(ctx, so, [("digests", "()")], timeout_per_case=60)[0]
+        except lib.Infra as e:      # the module does not even import (e.g. the string table fails to decompress): an observation, not an infrastructure failure
+            o = "crash import: " + " ".join(str(e).split())[-200:]
         ctx.seen(("strings", name), nontrivial=True)
         if o != want:
             bad = "?"
